@@ -225,12 +225,35 @@ class DN:
 
 
 def jvp(f, primals, tangents):
+    """jax.jvp(f, primals, tangents): every primal / tangent argument may be a PYTREE (tuples, lists, dicts of arrays)
+    with matching structure; the outputs are pytrees too"""
     Assumed.note(AD)
-    dns = [DN(p, t) for p, t in zip(primals, tangents)]
+    import jax.tree_util as real_jtu
+
+    from ..sym import Sym
+    from ..tensor import Tensor
+
+    is_leaf = lambda x: isinstance(x, (Sym, Tensor, DN)) or x is None or type(x).__name__ in ("Zero", "Float0")
+    if len(primals) != len(tangents):
+        raise documented(TypeError("primal and tangent arguments to jax.jvp must have the same tree structure"))
+
+    def pair(p, t):
+        pl, pd = real_jtu.tree_flatten(p, is_leaf=is_leaf)
+        tl, td = real_jtu.tree_flatten(t, is_leaf=is_leaf)
+        if pd != td:
+            raise documented(TypeError("primal and tangent arguments to jax.jvp must have the same tree structure"))
+        return real_jtu.tree_unflatten(pd, [DN(a, b) for a, b in zip(pl, tl)])
+
+    dns = [pair(p, t) for p, t in zip(primals, tangents)]
     out = f(*dns)
     if isinstance(out, DN):
         return out.p, out.tan()
-    return out, zeros_like_tangent(out)
+    leaves, td = real_jtu.tree_flatten(out, is_leaf=lambda x: isinstance(x, (Sym, Tensor, DN)))
+    if not any(isinstance(l, DN) for l in leaves):
+        return out, zeros_like_tangent(out)
+    ps = [l.p if isinstance(l, DN) else l for l in leaves]
+    ts = [l.tan() if isinstance(l, DN) else zeros_like_tangent(l) for l in leaves]
+    return real_jtu.tree_unflatten(td, ps), real_jtu.tree_unflatten(td, ts)
 
 
 def namespace():
